@@ -560,6 +560,32 @@ func runC14(cfg *vh.Config) error {
 		caseNo++
 	}
 
+	// ---- stream: package loading against the model's `load` (CLoad): the real PackageSet after compiling
+	// under shuffled listings / call order vs the skeleton run on the implementation's own file summaries
+	{
+		nL := cfg.Scale(14, 80)
+		if nL > nB {
+			nL = nB
+		}
+		lobs := parallel(nL, "load", caseNo,
+			func(i int) any { return map[string]any{"files": bundles[i].Content, "packages": bundles[i].Packages} },
+			func(i int) loadObs { return observeLoad(bundles[i], cfg.Seed*104729+uint64(i)) })
+		for i, lo := range lobs {
+			in := map[string]any{"files": bundles[i].Content, "packages": bundles[i].Packages}
+			if lo.Err != "" {
+				if _, bad := all[i].Runs[0].Errs[bundles[i].Packages[0]]; !bad {
+					res.Fail(vh.Failure{Case: caseNo, Stream: "load", Sig: "C14 compile outcome differs between configurations", Clause: "independent of listing order and call order", Input: in, Got: "baseline compiled; shuffled run: " + lo.Err})
+				}
+				continue
+			}
+			for _, pkg := range bundles[i].Packages {
+				addCase(lo.caseTerm(pkg), "load", in, lo.Pkgs[pkg])
+				res.Count("case_load")
+			}
+		}
+		caseNo++
+	}
+
 	// ---- stream 2: the Dependency list of one-property files, against the ensureImport model
 	rI := cfg.R.Fork("imports")
 	props := isoMatrix(rI, false)
